@@ -25,7 +25,7 @@ Do(op, a, r) ==
       e   == [op |-> op, a |-> a, r |-> r, ok |-> res.ok, err |-> res.err]
       g1  == GhostNext(g, e)
   IN /\ Len(hist) < Depth
-     /\ Assert(AllHold(StepMonitors(g, e, O(s), O(res.s))), <<"step monitor fails", e, hist>>)
+     /\ Assert(AllHold(StepMonitors(g, e, O(s), O(res.s), MaxRoles, MaxMembers)), <<"step monitor fails", e, hist>>)
      /\ s' = res.s
      /\ g' = g1
      /\ hist' = Append(hist, [op |-> op, a |-> a, r |-> r])
